@@ -263,6 +263,8 @@ struct Scen {
     /// queries are compared and reported under this class instead of being judged by the case oracle
     window: Option<&'static str>,
     window_reported: bool,
+    /// the window stays open until the end of the scenario
+    sticky_window: bool,
     /// the last DML statement returned an error
     last_failed: bool,
     schema: Vec<(u64, bool)>,
@@ -478,7 +480,7 @@ fn new_scen_with(schema: Vec<(u64, bool)>, btree_budget: Option<usize>) -> Scen 
         Some(e) => e.create_table("t", Schema::new(cols)).expect("create table"),
         None => router.relational().create_table("t", Schema::new(cols)).expect("create table"),
     }
-    Scen { router, own, tx: None, window: None, window_reported: false, last_failed: false, schema, cur: vec![], steps: vec![], human: vec![], nontrivial: false }
+    Scen { router, own, tx: None, window: None, window_reported: false, sticky_window: false, last_failed: false, schema, cur: vec![], steps: vec![], human: vec![], nontrivial: false }
 }
 
 fn do_insert(s: &mut Scen, vals: Vec<V>, dist: &mut Dist) {
@@ -495,7 +497,7 @@ fn do_insert(s: &mut Scen, vals: Vec<V>, dist: &mut Dist) {
     let post = s.refresh();
     dist.hit(if ret.is_some() { "op.insert" } else { "op.insert_rejected" });
     s.last_failed = ret.is_none();
-    if s.tx.is_some() && ret.is_none() {
+    if (s.tx.is_some() && ret.is_none()) || s.sticky_window {
         // a statement that failed inside an open transaction keeps its partial effects until the
         // rollback: not judged (the transaction is resolved by the caller), only re-synchronised
         s.steps.push(format!("SSync {}", dump_coq(&post)));
@@ -517,7 +519,7 @@ fn do_update(s: &mut Scen, c: &C, sets: Vec<(u64, V)>, dist: &mut Dist) {
         s.nontrivial = true;
     }
     s.last_failed = ret.is_none();
-    if s.tx.is_some() && ret.is_none() {
+    if (s.tx.is_some() && ret.is_none()) || s.sticky_window {
         s.steps.push(format!("SSync {}", dump_coq(&post)));
     } else {
         s.steps.push(format!(
@@ -543,7 +545,7 @@ fn do_delete(s: &mut Scen, c: &C, dist: &mut Dist) {
         s.nontrivial = true;
     }
     s.last_failed = ret.is_none();
-    if s.tx.is_some() && ret.is_none() {
+    if (s.tx.is_some() && ret.is_none()) || s.sticky_window {
         s.steps.push(format!("SSync {}", dump_coq(&post)));
     } else {
         s.steps.push(format!("SDelete {} {} {} {}", c.coq(), ids_coq(&touched), opt(ret.map(n)), dump_coq(&post)));
@@ -589,7 +591,7 @@ fn do_query(s: &mut Scen, strat: u64, c: &C, lim: u64, off: u64, col: u64, dist:
             s.window_reported = true;
             hits.push(
                 class,
-                &format!("{} returned {:?} but the rows satisfying the condition give {:?} (transaction with a half-failed statement still open)", STRAT_NAMES[strat as usize], got, want),
+                &format!("{} returned {:?} but the rows satisfying the condition give {:?} (class {class})", STRAT_NAMES[strat as usize], got, want),
                 json!({"schema": format!("{:?}", s.schema), "trace": s.human.clone(), "cond": format!("{c:?}")}),
             );
         }
@@ -871,6 +873,14 @@ fn index_shapes(s: &mut Scen, idx_cols: &[(u64, u64)], vals: &[Vec<V>], r: &mut 
         do_query(s, 4, &c, 100, 0, *col, dist, hits);
     }
 }
+/// rollback() answered with an error (RollbackFailed: the undo ran out of B-tree entries, C09's known
+/// class rollback-over-btree-budget): from here on an index may miss rows for good
+fn rollback_failed(s: &mut Scen, dist: &mut Dist) {
+    dist.hit("budget.rollback_failed");
+    s.window = Some("rollback-failed-over-btree-budget");
+    s.window_reported = false;
+    s.sticky_window = true;
+}
 fn sync_step(s: &mut Scen, what: &str) {
     let post = s.refresh();
     s.steps.push(format!("SSync {}", dump_coq(&post)));
@@ -949,6 +959,9 @@ fn budget_scen(r: &mut Rng, w: &mut CaseWriter, dist: &mut Dist, hits: &mut Hits
                 s.tx = None;
                 dist.hit(if commit { "budget.commit" } else { "budget.rollback" });
                 sync_step(&mut s, &format!("{}->{}", if commit { "commit" } else { "rollback" }, ok));
+                if !commit && !ok {
+                    rollback_failed(&mut s, dist);
+                }
                 index_shapes(&mut s, &idx_cols, &vals, r, dist, hits);
                 continue;
             }
@@ -983,23 +996,33 @@ fn budget_scen(r: &mut Rng, w: &mut CaseWriter, dist: &mut Dist, hits: &mut Hits
         if s.last_failed {
             dist.hit("budget.failed_statement");
             if let Some(tx) = s.tx {
-                s.window = Some("open-tx-after-failed-statement");
-                s.window_reported = false;
+                if !s.sticky_window {
+                    s.window = Some("open-tx-after-failed-statement");
+                    s.window_reported = false;
+                }
                 index_shapes(&mut s, &idx_cols, &vals, r, dist, hits);
-                s.window = None;
+                if !s.sticky_window {
+                    s.window = None;
+                }
                 // a client rolls the transaction back after a failed statement
                 let ok = s.eng().rollback(tx).is_ok();
                 s.tx = None;
                 dist.hit("budget.rollback_after_failure");
                 sync_step(&mut s, &format!("rollback after failed statement->{ok}"));
+                if !ok {
+                    rollback_failed(&mut s, dist);
+                }
             }
         }
         index_shapes(&mut s, &idx_cols, &vals, r, dist, hits);
     }
     if let Some(tx) = s.tx {
-        let _ = s.eng().rollback(tx);
+        let ok = s.eng().rollback(tx).is_ok();
         s.tx = None;
-        sync_step(&mut s, "rollback (end)");
+        sync_step(&mut s, &format!("rollback (end)->{ok}"));
+        if !ok {
+            rollback_failed(&mut s, dist);
+        }
         index_shapes(&mut s, &idx_cols, &vals, r, dist, hits);
     }
     let _ = script;
